@@ -231,21 +231,32 @@ func outEnv(c *Case, e Env, tg target) ([]string, bool) {
 		return nil, false
 	}
 	f := union(e.Feats, tg.feats)
-	if e.has("nesting") {
-		for _, x := range impliedByNesting {
+	imply := func(xs []string) bool {
+		for _, x := range xs {
 			if !e.has(x) {
 				if subset([]string{x}, c.Feats) {
-					return nil, false
+					return false
 				}
 				f = union(f, []string{x})
 			}
 		}
+		return true
+	}
+	if e.has("nesting") && !imply(impliedByNesting) {
+		return nil, false
+	}
+	if subset([]string{"is"}, f) && !imply(impliedByIs) {
+		return nil, false
 	}
 	return f, true
 }
 
 // every browser that understands nesting understands the level-4 selectors it is defined with
 var impliedByNesting = []string{"is", "where", "not-list"}
+
+// ... and a browser that understands :is() understands :where() and complex :not() (they shipped together,
+// esbuild's compat table has one entry for the three)
+var impliedByIs = []string{"where", "not-list"}
 
 func (v *Vocab) nodeConds(c *Case, e Env) map[string]bool {
 	m := map[string]bool{}
@@ -327,6 +338,9 @@ func checkCases(r *core.Run, voc *Vocab, cases []*Case, stats *stats) {
 		if c.Family == "witness" {
 			w.style = Style{Group: true, LastSemi: true}
 			cfgs = []config{{"off", "chrome50", "css"}, {"all", "firefox60", "css"}}
+			if c.Name == "witness-2" {
+				cfgs = []config{{"all", "none", "css"}}
+			}
 		}
 		w.text = voc.Render(c.Items, w.style)
 		for _, cfg := range cfgs {
@@ -554,7 +568,7 @@ func judge(r *core.Run, voc *Vocab, i int, w *work, results map[string]*nodeResu
 }
 
 func Run(r *core.Run) {
-	r.Assume("browsers consistent with the configured target: an environment is judged only if it understands every modelled syntax feature esbuild's compat table attributes to the target (target unset = all features), and :is()/:where()/complex :not() if it understands nesting; where esbuild itself warns that a nested selector cannot be lowered without :is() for the target, environments without :is() are not judged; :where() and multi-argument :not() are free for every explicit target")
+	r.Assume("browsers consistent with the configured target: an environment is judged only if it understands every modelled syntax feature esbuild's compat table attributes to the target (target unset = all features), and :is()/:where()/complex :not() if it understands nesting, :where()/complex :not() if it understands :is(); where esbuild itself warns that a nested selector cannot be lowered without :is() for the target, environments without :is() are not judged; :where() and multi-argument :not() are free for every explicit target")
 	r.Assume("the document is the fixed 9-element tree of Css.tla; dynamic pseudo-classes match nothing; one origin (author)")
 	r.Assume("nested rules come after their parent's declarations (no declarations after a nested rule); layers are not nested inside style rules; feature-using selectors are not put inside :is()/:where()/:not()")
 	r.Assume("values: exact notations only (named/hex/rgb()/hsl() on the 8-bit grid, alpha in {0,0.2,0.4,0.6,0.8,1}, terminating decimals, calc() over one unit or a linear combination); lab/lch/oklab/oklch/color-mix accuracy is not examined")
@@ -755,16 +769,32 @@ func replay(r *core.Run, st *stats) {
 // specificity of :is(list), i.e. of its most specific member).  Computed from the scenario, not from the failure.
 func classify(c *Case, o *outcome, envIx int) string {
 	tg := targetByName(o.cfg.Target)
-	if envIx < 0 || subset([]string{"is"}, tg.feats) {
+	if envIx < 0 {
 		return ""
 	}
-	// second class: `&` inside :not() under a parent list, expanded member by member:
-	// :not(:is(.a,.b)) becomes `:not(.a), :not(.b)` (a union where an intersection is meant)
-	if c.NotAmp {
-		return "nesting-list-expansion-in-not"
+	if !subset([]string{"is"}, tg.feats) {
+		// `&` inside :not() under a parent list, expanded member by member:
+		// :not(:is(.a,.b)) becomes `:not(.a), :not(.b)` (a union where an intersection is meant)
+		if c.NotAmp {
+			return "nesting-list-expansion-in-not"
+		}
+		if c.Mixed {
+			return "nesting-list-expansion-specificity"
+		}
 	}
-	if c.Mixed && c.Envs[envIx].has("nesting") {
-		return "nesting-list-expansion-specificity"
+	// third class (any target): the minifier inlines `list { & { d } }` to `list { d }`
+	if c.Mixed && o.cfg.Minify != "off" && o.cfg.Minify != "whitespace" {
+		for _, it := range c.Items {
+			nsel := 0
+			for _, pe := range it.Path {
+				if pe.T == "sel" {
+					nsel++
+					if nsel >= 2 && pe.S == "&" {
+						return "noop-nesting-inlined-under-list"
+					}
+				}
+			}
+		}
 	}
 	return ""
 }
